@@ -115,7 +115,12 @@ def enumerate_zone_boundaries(tier, seed, shard, nshards):
                 for lon in sorted(lons):
                     if not (lo <= lon < hi):
                         continue
-                    for lat in ((-37.0, 12.5) if tier == "quick" else (-80.0, -37.0, -1e-9, 0.0, 12.5, 84.0)):
+                    lats = [float(v) for v in range(-80, 85, 8)] + [84.0]
+                    if tier == "thorough":
+                        lats = [float(v) for v in range(-80, 85, 2)] + [-1e-9, 0.5]
+                    elif prj != "utm":
+                        lats = [-72.0, -37.0, 0.0, 12.5, 60.0, 84.0]
+                    for lat in lats:
                         if i % nshards == shard:
                             yield {"lat": lat, "lon": lon, "zone": 0, "ell": ("ans" if prj == "isg" else "grs80"), "prj": prj, "kind": "float"}
                         i += 1
